@@ -5,7 +5,7 @@ import random
 from . import relaysys, tlc
 from .core import Machinery
 
-C07_FLAGS = {'content', 'drops', 'fake', 'batch', 'stopflush'}
+C07_FLAGS = {'content', 'drops', 'fake', 'batch', 'stopflush', 'undelivered'}
 C09_FLAGS = {'stuck'}
 WHAT = {
   'content': 'what a destination has been sent plus what is still queued for it is not the accepted datapoints in arrival order, exactly once (within the hard limit)',
@@ -13,9 +13,11 @@ WHAT = {
   'fake': 'datapoints buffered while no destination is available were lost or duplicated',
   'batch': 'a message carried more than MAX_DATAPOINTS_PER_MESSAGE datapoints (or none)',
   'stopflush': 'an orderly stop closed a connection whose queue still held datapoints',
+  'undelivered': 'a connected, unpaused destination holds queued datapoints but no send is scheduled: they will never be written',
   'stuck': 'quiescent with a destination up and every send queue below its low watermark, but receivers are still paused',
 }
-INV_C07 = ['TypeOK', 'FifoOnce', 'NormalOrder', 'DropsCounted', 'Bounded', 'BatchSize', 'StopAfterFlush', 'NoLoss']
+INV_C07 = ['TypeOK', 'FifoOnce', 'NormalOrder', 'DropsCounted', 'Bounded', 'BatchSize', 'StopAfterFlush', 'NoLoss',
+           'SendScheduled']
 
 
 def consts_for(rm, maxitems, maxconn, posttake=True):
@@ -117,7 +119,7 @@ def negative_controls(ctx, consts, traces, verdicts):
 
 CONFIGS_QUICK = [
   dict(nd=2, maxq=2, mpm=2, flow=True, dynamic=False, nr=1),
-  dict(nd=2, maxq=4, mpm=10, flow=True, dynamic=True, max_retries=1, nr=1),
+  dict(nd=2, maxq=4, mpm=2, flow=True, dynamic=True, max_retries=1, nr=1),
   dict(nd=1, maxq=2, mpm=1, flow=False, dynamic=False, nr=1, protocol='line'),
 ]
 CONFIGS_MORE = [
@@ -145,10 +147,13 @@ def run_traces(ctx, rm, cfg, nsim, nrandom, nevents, seed_base, maxitems=6, maxc
     seed = ctx.rng.randrange(1 << 30)
     rr = random.Random(seed)
     w = {}
-    if k % 3 == 1:
+    if k % 4 == 1:
       w = dict(Arrive=10, SendTimer=2, TPause=2)     # queues fill up
-    elif k % 3 == 2:
+    elif k % 4 == 2:
       w = dict(ConnLost=3, ConnFailed=3, RetryTimer=4)   # flapping connections
+    elif k % 4 == 3:
+      # a slow destination: the queue fills while connected, then the connection flaps, then drains
+      w = dict(Arrive=12, SendTimer=0.7, TPause=3, TResume=1, ConnLost=2.5, RetryTimer=6, ConnMade=6, Stop=0.05)
     tr = relaysys.random_run(rm, cfg, rr, nevents, settle=True, weights=w)
     traces.append(tr)
     origins.append(dict(kind='random history', cfg=cfg, rseed=seed, weights=w, nevents=nevents))
